@@ -567,7 +567,7 @@ func legRobust(c *Ctx) {
 	// (countCaptures) and the parser look ahead by fixed amounts and must find the end of the pattern first
 	constructs := []string{`(?P<name>a)`, `(?<n-m>a)`, `(?'n'a)`, `(?P=name)`, `(?(1)a|b)`, `(?(name)a|b)`, `(?(?=a)b|c)`, `\k<name>`, `\k'n'`, `\k{n}`,
 		`\p{Lu}`, `\P{IsGreek}`, `[[:alpha:]]`, `[a-z-[aeiou]]`, `[^\]a-]`, `(?#comment)`, `\x{10FFFF}`, `\x41`, `\u0041`, `\u{1F600}`, `\cA`, `a{1,3}?`, `a{2,}+`,
-		`(?imnsx-imnsx:a)`, `(?i)`, `(?>a)`, `(?<=a)`, `(?<!a)`, `(?=a)`, `(?!a)`, `\123`, `\0`, `\Qa.b\E`, `\G\A\z\Z\b\B`, `(?<1>a)\1`, `#c\n`, `\ `, `a|`, `(|)`}
+		`(?imnsx-imnsx:a)`, `(?i)`, `(?>a)`, `(?<=a)`, `(?<!a)`, `(?=a)`, `(?!a)`, `\123`, `\0`, `\Qa.b\E`, `\G\A\z\Z\b\B`, `(?<1>a)\1`, `#c\n`, `\ `, `a|`, `(|)`, `(?<a\u0041>x)`, `(?'\u0041b'x)`, `\k<a\u0041>`, `(?<\u{41}>x)`, `(?<n>a)\k<\u006e>`}
 	bases := []string{"", "a", "(a)", "(?<name>x)(?<n>y)(?<m>z)", "\xff"}
 	dialects := []regexp2.RegexOptions{0, regexp2.RE2, regexp2.ECMAScript, regexp2.ECMAScript | regexp2.Unicode, regexp2.RE2 | regexp2.IgnoreCase,
 		regexp2.ExplicitCapture, regexp2.IgnorePatternWhitespace, regexp2.RightToLeft, regexp2.IgnorePatternWhitespace | regexp2.RE2}
@@ -603,6 +603,43 @@ func legRobust(c *Ctx) {
 			}
 		}
 		cs := &Case{Desc: fmt.Sprintf("every truncation of %+q after %d bases under %d dialects", cons, len(bases), len(dialects)), Nontrivial: true, Key: "trunc" + cons, Class: "truncation"}
+		if len(bad) > 0 {
+			if len(bad) > 4 {
+				bad = bad[:4]
+			}
+			cs.Direct = strings.Join(bad, " | ")
+		}
+		c.Add(cs)
+	}
+	// every truncation of every replacement construct, under every dialect: NewReplacerData returns data or a documented
+	// error, Replace returns
+	for _, cons := range []string{`${n\u0041}`, `${\u{6e}}`, `${name}`, `$10`, `${1}`, `$&$`+"`"+`$'$+$_$$`, `${2147483648}`, `$99999999999`} {
+		cr := []rune(cons)
+		var bad []string
+		for k := 0; k <= len(cr); k++ {
+			for _, pre := range []string{"", "x", "$"} {
+				repl := pre + string(cr[:k])
+				for _, ro := range dialects {
+					truncs++
+					guarded(fmt.Sprintf("Replace(%+q) under %#x", repl, int(ro)), &bad, false, func() error {
+						re, err := regexp2.Compile(`(?<n>a)(?<name>x)?`, ro)
+						if err != nil {
+							return nil
+						}
+						re.MatchTimeout = 100 * time.Millisecond
+						if _, err := re.Replace("axyz a1", repl, -1, -1); err != nil && !strings.Contains(err.Error(), "out of range") {
+							return fmt.Errorf("Replace returned an undocumented error: %w", err)
+						}
+						_, err = re.Replace("axyz a1", repl, 2, 1)
+						if err != nil && strings.Contains(err.Error(), "out of range") {
+							return nil
+						}
+						return err
+					})
+				}
+			}
+		}
+		cs := &Case{Desc: fmt.Sprintf("every truncation of the replacement %+q under %d dialects", cons, len(dialects)), Nontrivial: true, Key: "rtrunc" + cons, Class: "truncation"}
 		if len(bad) > 0 {
 			if len(bad) > 4 {
 				bad = bad[:4]
